@@ -9,8 +9,8 @@ import (
 // Schedule describes how a chunking reader delivers its bytes. It is pure data so that a case
 // can be replayed.
 type Schedule struct {
-	Sizes       []int `json:"sizes"`          // chunk sizes, cycled
-	Cuts        []int `json:"cuts,omitempty"` // forced chunk boundaries (byte offsets)
+	Sizes       []int `json:"sizes"`                // chunk sizes, cycled
+	Cuts        []int `json:"cuts,omitempty"`       // forced chunk boundaries (byte offsets)
 	ZeroEvery   int   `json:"zero_every,omitempty"` // every n-th read is preceded by ZeroRun (0,nil) reads
 	ZeroRun     int   `json:"zero_run,omitempty"`
 	EOFWithData bool  `json:"eof_with_data,omitempty"` // final chunk returned together with io.EOF
@@ -86,7 +86,9 @@ var ErrInjected = errors.New("injected read fault")
 type FaultReader struct {
 	// WithData makes the (first occurrence of each) failure accompany the last bytes delivered before it:
 	// Read returns (n > 0, err) instead of (n, nil) followed by (0, err).
-	WithData  bool
+	WithData bool
+	// Err is the error value the failing Reads return (nil: ErrInjected).
+	Err       error
 	inner     *ChunkReader
 	data      []byte
 	failAt    int
@@ -109,7 +111,7 @@ func (f *FaultReader) Read(p []byte) (int, error) {
 	if f.failed {
 		if f.resume <= 0 {
 			f.Faults++
-			return 0, ErrInjected
+			return 0, f.err()
 		}
 		limit = f.failAt + f.resume
 	}
@@ -120,7 +122,7 @@ func (f *FaultReader) Read(p []byte) (int, error) {
 			f.resume = 0
 		}
 		f.Faults++
-		return 0, ErrInjected
+		return 0, f.err()
 	}
 	if len(p) > limit-f.delivered {
 		p = p[:limit-f.delivered]
@@ -137,7 +139,14 @@ func (f *FaultReader) Read(p []byte) (int, error) {
 			f.resume = 0
 		}
 		f.Faults++
-		return n, ErrInjected
+		return n, f.err()
 	}
 	return n, err
+}
+
+func (f *FaultReader) err() error {
+	if f.Err != nil {
+		return f.Err
+	}
+	return ErrInjected
 }
